@@ -30,6 +30,12 @@ theorem fiemap_unsupported_whole_file (len b : Nat) (sparse : Bool) :
     parblockJobs len b sparse none = blocks 0 len b := by
   cases sparse <;> simp [parblockJobs, parblockRanges]
 
+/-- A file that is not sparse is queued as one range whatever the extent query answers (or fails to answer):
+the facility's presence or absence cannot change which bytes are copied. -/
+theorem nonsparse_ignores_extent_answer (len b : Nat) (exts : Option (List Extent)) :
+    parblockJobs len b false exts = blocks 0 len b := by
+  simp [parblockJobs, parblockRanges]
+
 /-- one block, Linux backend, any legal mixture of short counts and a mid-block switch to user space -/
 theorem block_short_counts_exact (src : Bytes) (k : Kern) (hs : KernSafe k src.length) (hl : KernLive k src.length)
     (off bytes n : Nat) (ho : off ≤ src.length) (h : (blockJob k true off bytes).stop = .ok n) :
